@@ -125,6 +125,8 @@ impl Recorder {
         }
         self.shape.add(st.sc_false.min(3));
         self.shape.add(st.callbacks.min(8));
+        // size class of the proof search: log2 bucket of the database calls it made
+        self.shape.add(64 - st.db_calls.leading_zeros() as u64);
         let rendered = fmt_out(out);
         self.log.add_str(&rendered);
         self.log.add(st.db_calls);
